@@ -1,3 +1,341 @@
 import Driver.Common
--- stub driver for C10 (replaced when the property's model is built)
-def main (args : List String) : IO UInt32 := Driver.main' (fun _ => "bad-op") (fun _ _ => "fail bad-op") args
+import GilVerif.Model.C10
+open Driver GilVerif.Model.C10
+
+/-! driver for C10: `model` runs a history on the Lean state machine and prints the observation in the
+    harness's format; `judge` evaluates the property's Spec clauses on the implementation's observation. -/
+
+def orgOfName : String → Option Org
+  | "rgb8"   => some { mstep := 3, b2m := 1, chans := 3, planar := false, nontrivial := false, pixel := true }
+  | "rgb8p"  => some { mstep := 1, b2m := 1, chans := 3, planar := true,  nontrivial := false, pixel := true }
+  | "gray16" => some { mstep := 2, b2m := 1, chans := 1, planar := false, nontrivial := false, pixel := true }
+  | "rgb565" => some { mstep := 2, b2m := 1, chans := 3, planar := false, nontrivial := false, pixel := true }
+  | "gray1"  => some { mstep := 1, b2m := 8, chans := 1, planar := false, nontrivial := false, pixel := true, fillBroken := true }
+  | "elem"   => some { mstep := 4, b2m := 1, chans := 1, planar := false, nontrivial := true,  pixel := false }
+  | _ => none
+
+def partnerName : String → Option String
+  | "rgb8" => some "rgb8p" | "rgb8p" => some "rgb8" | _ => none
+
+def cfgOf0 (mode org alloc : String) : Option Cfg := do
+  let o ← orgOfName org
+  let po := (partnerName org).bind orgOfName
+  let nd ← (match mode with | "dbg" => some false | "rel" => some true | _ => none)
+  match alloc with
+  | "se"   => some { pocma := false, pocs := false, empty := true,  ntags := 0, ndebug := nd, org := o, porg := po }
+  | "sf00" => some { pocma := false, pocs := false, empty := false, ntags := 0, ndebug := nd, org := o, porg := po }
+  | "sf01" => some { pocma := false, pocs := true,  empty := false, ntags := 0, ndebug := nd, org := o, porg := po }
+  | "sf10" => some { pocma := true,  pocs := false, empty := false, ntags := 0, ndebug := nd, org := o, porg := po }
+  | "sf11" => some { pocma := true,  pocs := true,  empty := false, ntags := 0, ndebug := nd, org := o, porg := po }
+  | "pmr"  => some { pocma := false, pocs := false, empty := false, ntags := 3, ndebug := nd, org := o, porg := po }
+  | _ => none
+
+def cfgOf (mode org alloc mc : String) : Option Cfg :=
+  (cfgOf0 mode org alloc).bind fun c => match mc with
+    | "0" => some { c with elemMoveCompiles := false } | "1" => some { c with elemMoveCompiles := true } | _ => none
+
+def nats (ws : List String) : Option (List Nat) := ws.mapM String.toNat?
+
+def sameSide (a b : Nat) : Bool := (a < 4) == (b < 4)
+
+def parseOp (ws : List String) : Op :=
+  match ws with
+  | name :: args =>
+    match name, nats args with
+    | "dflt", some [s, t, al] => .dflt s t al
+    | "dims", some [s, t, al, w, h, v] => .dims s t al w h v
+    | "fill", some [s, t, al, w, h, v] => .fill s t al w h v
+    | "fillprobe", some [s, t, al, w, h, v] => .fillprobe s t al w h v
+    | "fromview", some [s, t, al, s2] => if sameSide s s2 then .fromview s t al s2 else .bad
+    | "copy", some [s, s2] => if sameSide s s2 then .copy s s2 else .bad
+    | "ccopy", some [s, s2] => if sameSide s s2 then .bad else .copy s s2
+    | "move", some [s, s2] => if sameSide s s2 then .move s s2 else .bad
+    | "assign", some [s, s2] => if sameSide s s2 then .assign s s2 else .bad
+    | "cassign", some [s, s2] => if sameSide s s2 then .bad else .assign s s2
+    | "massign", some [s, s2] => if sameSide s s2 then .massign s s2 else .bad
+    | "swap", some [s, s2] => if sameSide s s2 then .swap s s2 else .bad
+    | "rec", some [s, w, h, al, v] => .recreate s w h al none none v
+    | "recf", some [s, w, h, v, al] => .recreate s w h al (some v) none 0
+    | "reca", some [s, w, h, al, t, v] => .recreate s w h al none (some t) v
+    | "recfa", some [s, w, h, v, al, t] => .recreate s w h al (some v) (some t) 0
+    | "write", some [s, x, y, v] => .write s x y v
+    | "destroy", some [s] => .destroy s
+    | _, _ => .bad
+  | [] => .bad
+
+structure Hist where
+  cfg : Cfg
+  fa : Nat
+  fc : Nat
+  ops : List Op
+  names : List (List String)
+
+def parseHist (line : String) : Option Hist :=
+  match line.splitOn "|" with
+  | hd :: rest =>
+    match words hd with
+    | ["h", mode, org, alloc, fa, fc, mc] =>
+      match cfgOf mode org alloc mc, fa.toNat?, fc.toNat? with
+      | some c, some fa, some fc => some { cfg := c, fa := fa, fc := fc, ops := rest.map (fun o => parseOp (words o)), names := rest.map words }
+      | _, _, _ => none
+    | _ => none
+  | [] => none
+
+/-! ### observation printing -/
+
+def showOutcome : Outcome → String
+  | .ok => "ok" | .badAlloc => "bad_alloc" | .ctorThrow => "ctor_throw"
+  | .assertFail s => "assert:" ++ s | .nocompile => "nocompile" | .skip => "skip"
+  | .okFilled => "ok:filled" | .okUnfilled => "ok:unfilled"
+
+def showEvent : Event → String
+  | .alloc id n t => s!"A{id}:{n}:{t}"
+  | .dealloc id n t => s!"D{id}:{n}:{t}"
+
+def lowbit64 (a : Nat) : Nat :=
+  let a := a % 64
+  if a = 0 then 64 else if a % 2 = 1 then 1 else if a % 4 = 2 then 2 else if a % 8 = 4 then 4 else if a % 16 = 8 then 8 else if a % 32 = 16 then 16 else 32
+
+def chk (pix : List Nat) : Nat :=
+  (pix.foldl (fun (acc : Nat × Nat) v => ((acc.1 + (acc.2 + 1) * v) % 1000003, acc.2 + 1)) (0, 0)).1
+
+def slotObs (c : Cfg) (w : World) (s : Nat) : String :=
+  match c.orgOf s, w.imgs s with
+  | some o, some i =>
+    let k := chk i.pix
+    if i.w * i.h = 0 then s!"{i.w},{i.h},{k},64,1"
+    else
+      match i.mem with
+      | none => s!"{i.w},{i.h},{k},null,0"
+      | some b =>
+        let unitBits := 8 / o.b2m
+        let planes := if o.planar then o.chans else 1
+        let rows := (List.range (planes * i.h)).map (fun r => i.off * 8 + r * i.row * unitBits)
+        let sub := rows.any (fun sb => sb % 8 ≠ 0)
+        let ra := if sub then 0 else rows.foldl (fun m sb => min m (lowbit64 (blockAddr b + sb / 8))) 64
+        let blk := w.heap[b]?
+        let fit := match blk with
+          | some blk => blk.freed == 0 && rows.all (fun sb => (sb + i.w * o.mstep * unitBits + 7) / 8 ≤ blk.size)
+          | none => false
+        s!"{i.w},{i.h},{k},{ra},{if fit then 1 else 0}"
+  | _, _ => "-"
+
+def liveBlocks (w : World) : Nat := (w.heap.filter (fun b => b.freed == 0)).length
+
+def opObs (c : Cfg) (before after : World) (out : Outcome) (last : Bool) : String :=
+  let evs := (after.log.take (after.log.length - before.log.length)).reverse
+  let head := " ".intercalate (showOutcome out :: evs.map showEvent)
+  match out with
+  | .assertFail _ => head
+  | _ =>
+    let sl := slots.map (fun s => " ; " ++ slotObs c after s)
+    let cnt := if c.org.nontrivial then s!" ; c={after.ctor} d={after.dtor}" else ""
+    head ++ String.join sl ++ cnt ++ (if last then s!" ; live={liveBlocks after}" else "")
+
+def rzero (c : Cfg) (w : World) (op : Op) (out : Outcome) : World :=
+  -- harness normalisation: after a recreate that ended with ctor_throw the harness zero-fills the current view
+  match op, out with
+  | .recreate s _ _ _ _ _ _, .ctorThrow => if (c.orgOf s).isSome then userFill w s 0 else w
+  | _, _ => w
+
+partial def runObs (c : Cfg) (w : World) (ops : List Op) (acc : List String) : List String :=
+  match ops with
+  | [] =>
+    let (w', out) := step c w .stop
+    (opObs c w w' out true :: acc).reverse
+  | op :: rest =>
+    let (w', out) := step c w op
+    let w' := rzero c w' op out
+    let o := opObs c w w' out false
+    match out with
+    | .assertFail _ => (o :: acc).reverse
+    | _ => runObs c w' rest (o :: acc)
+
+def model (line : String) : String :=
+  match parseHist line with
+  | none => "bad-op"
+  | some h =>
+    let w := World.init (if h.fa = 0 then none else some (h.fa - 1)) (if h.fc = 0 then none else some (h.fc - 1))
+    " | ".intercalate (runObs h.cfg w h.ops [])
+
+/-! ### judge: the Spec on the implementation's observation -/
+
+structure SlotO where
+  w : Nat
+  h : Nat
+  chk : Nat
+  ra : Nat
+  fit : Nat
+  deriving BEq
+
+structure Rec where
+  outcome : String
+  events : List Event
+  slots : List (Option SlotO)
+  c : Option Nat
+  d : Option Nat
+  live : Option Nat
+
+def parseEvent (s : String) : Option Event :=
+  let body := (s.drop 1).toString
+  match body.splitOn ":" with
+  | [a, b, c] =>
+    match a.toInt?, b.toNat?, c.toNat? with
+    | some id, some n, some t =>
+      if s.startsWith "A" then (if id ≥ 0 then some (.alloc id.toNat n t) else none)
+      else if s.startsWith "D" then some (.dealloc (if id < 0 then 1000000000 else id.toNat) n t)
+      else none
+    | _, _, _ => none
+  | _ => none
+
+def parseSlot (s : String) : Option (Option SlotO) :=
+  let t := s.trimAscii.toString
+  if t = "-" then some none
+  else match (t.splitOn ",").mapM (fun x => x.trimAscii.toString.toNat?) with
+    | some [w, h, k, ra, fit] => some (some ⟨w, h, k, ra, fit⟩)
+    | _ => none
+
+def parseRec (s : String) : Option Rec :=
+  match s.splitOn ";" with
+  | hd :: rest =>
+    match words hd with
+    | out :: evs =>
+      match evs.mapM parseEvent with
+      | none => none
+      | some evs =>
+        let slotStrs := rest.take 6
+        let extra := (rest.drop 6).flatMap words
+        match slotStrs.mapM parseSlot with
+        | none => if rest.isEmpty then some ⟨out, evs, [], none, none, none⟩ else none
+        | some sl =>
+          let get (p : String) : Option Nat := extra.findSome? (fun x => if x.startsWith p then (x.drop p.length).toString.toNat? else none)
+          some ⟨out, evs, sl, get "c=", get "d=", get "live="⟩
+    | [] => none
+  | [] => none
+
+/-- abstract heap of the judge: (size, tag, live) by id -/
+abbrev JHeap := List (Nat × Nat × Bool)
+
+def applyEvents (h : JHeap) : List Event → Except String JHeap
+  | [] => .ok h
+  | .alloc id n t :: rest => if id = h.length then applyEvents (h ++ [(n, t, true)]) rest else .error "alloc-ids-sequential"
+  | .dealloc id n t :: rest =>
+    match h[id]? with
+    | some (sz, tg, true) =>
+      if sz ≠ n then .error "dealloc-size-matches-alloc"
+      else if tg ≠ t then .error "dealloc-through-the-allocating-allocator"
+      else applyEvents (h.set id (sz, tg, false)) rest
+    | some (_, _, false) => .error "no-double-free"
+    | none => .error "dealloc-of-unknown-block"
+
+def slotKey (s : Option SlotO) : Option (Nat × Nat × Nat) := s.map (fun x => (x.w, x.h, x.chk))
+
+/-- slots an operation may change -/
+def touched (ws : List String) : List Nat :=
+  match ws with
+  | name :: args =>
+    let a := args.filterMap String.toNat?
+    match name with
+    | "move" | "massign" | "swap" => a.take 2
+    | "fromview" => a.take 1
+    | _ => a.take 1
+  | [] => []
+
+def judgeOp (h : Hist) (ws : List String) (prev : List (Option SlotO)) (r : Rec) (heapBefore : JHeap) : Option String :=
+  let o := h.cfg.org
+  let slotAt (k : Nat) : Option SlotO := (r.slots[k]?).join
+  -- every slot: storage of the view lies inside one live allocation
+  if r.slots.any (fun s => match s with | some x => x.fit ≠ 1 | none => false) then some "view-inside-live-allocation"
+  -- slots not named by the operation are unchanged (deep copies: writes to one image never show in another)
+  else if (List.range 6).any (fun k => !(touched ws).contains k && slotKey ((prev[k]?).join) != slotKey (slotAt k) ) && ws.head? ≠ some "end" then some "other-images-unaffected"
+  else
+  match ws with
+  | name :: args =>
+    let a := args.filterMap String.toNat?
+    if r.outcome = "nocompile" then some "compiles"
+    else if r.outcome = "ok:unfilled" then some "fill-value-honoured"
+    else if r.outcome = "ok:filled" then none
+    else if r.outcome ≠ "ok" then none
+    else
+      let isRec := name = "rec" || name = "recf" || name = "reca" || name = "recfa"
+      if isRec then
+        let s := a.getD 0 0; let W := a.getD 1 0; let H := a.getD 2 0
+        let al := if name = "rec" || name = "reca" then a.getD 3 0 else a.getD 4 0
+        let org := if s < 4 then some o else h.cfg.porg
+        match slotAt s, org with
+        | some x, some org =>
+          if (x.w, x.h) ≠ (W, H) then some "recreate-dimensions"
+          else if al ≥ 1 ∧ W * H > 0 ∧ x.ra % al ≠ 0 then some "recreate-row-alignment"
+          else if name = "recf" ∨ name = "recfa" then
+            (let v := a.getD 3 0
+             if x.chk ≠ chk (List.replicate (W * H) v) ∧ (prev[s]?).join.map (fun p => (p.w, p.h)) ≠ some (W, H) then some "recreate-fill-value" else
+             -- storage is reused when large enough: the operation must not free a block that was big enough
+             if r.events.any (fun e => match e with | .dealloc _ n _ => n ≥ org.needed al W H | _ => false) then some "recreate-reuses-storage" else none)
+          else if r.events.any (fun e => match e with | .dealloc _ n _ => n ≥ org.needed al W H | _ => false) then some "recreate-reuses-storage"
+          else none
+        | _, _ => none
+      else if name = "copy" || name = "ccopy" || name = "assign" || name = "cassign" || name = "fromview" then
+        let s := a.getD 0 0; let s2 := if name = "fromview" then a.getD 3 0 else a.getD 1 0
+        if slotKey (slotAt s) != slotKey (slotAt s2) then some "copy-equals-source" else none
+      else if name = "move" then
+        let s := a.getD 0 0; let s2 := a.getD 1 0
+        if slotKey (slotAt s) != slotKey ((prev[s2]?).join) then some "move-transfers-value" else none
+      else if name = "massign" then
+        let s := a.getD 0 0; let s2 := a.getD 1 0
+        if s ≠ s2 ∧ slotKey (slotAt s) != slotKey ((prev[s2]?).join) then some "move-transfers-value" else none
+      else if name = "swap" then
+        let s := a.getD 0 0; let s2 := a.getD 1 0
+        if slotKey (slotAt s) != slotKey ((prev[s2]?).join) ∨ slotKey (slotAt s2) != slotKey ((prev[s]?).join) then some "swap-exchanges-values" else none
+      else if name = "dims" || name = "fill" then
+        let s := a.getD 0 0; let W := a.getD 3 0; let H := a.getD 4 0; let v := a.getD 5 0
+        match slotAt s with
+        | some x => if W * H > 0 ∧ ((x.w, x.h) ≠ (W, H) ∨ x.chk ≠ chk (List.replicate (W * H) v)) then some "constructed-as-requested" else none
+        | none => some "constructed-as-requested"
+      else none
+  | [] => none
+
+partial def judgeLoop (h : Hist) (names : List (List String)) (recs : List Rec) (prev : List (Option SlotO)) (heap : JHeap) (idx : Nat) : String :=
+  match recs with
+  | [] => if names.isEmpty then "ok" else "fail shape:missing-records"
+  | r :: rest =>
+    let ws := names.headD ["end"]
+    let isEnd := names.isEmpty
+    let fail (c : String) := s!"fail {c} @op{idx}:{" ".intercalate ws}"
+    if !(["ok", "ok:filled", "ok:unfilled", "bad_alloc", "ctor_throw", "nocompile", "skip"].contains r.outcome) ∧ !(r.outcome.startsWith "assert:") then
+      fail ("no-crash:" ++ r.outcome)
+    else if r.outcome.startsWith "assert:" then
+      -- an assertion inside the library on an in-contract history (user level swap of unequal non-propagating allocators is excluded by the generator)
+      fail ("no-assertion-failure:" ++ (r.outcome.drop 7).toString)
+    else
+    match applyEvents heap r.events with
+    | .error e => fail e
+    | .ok heap' =>
+      let live := (heap'.filter (fun b => b.2.2)).length
+      let occupied := (r.slots.filter Option.isSome).length
+      let nonEmpty := (r.slots.filter (fun s => match s with | some x => x.w * x.h > 0 | none => false)).length
+      if live > occupied then fail "at-most-one-live-allocation-per-image"
+      else if live < nonEmpty then fail "every-non-empty-image-owns-an-allocation"
+      else
+      -- constructed elements alive = pixels of the live images
+      let elems := r.slots.foldl (fun acc s => match s with | some x => acc + x.w * x.h | none => acc) 0
+      match (match r.c, r.d with | some c, some d => if c ≠ d + elems then some "constructed-elements-match-live-images" else none | _, _ => none) with
+      | some e => fail e
+      | none =>
+        match (if isEnd then none else judgeOp h ws prev r heap) with
+        | some e => fail e
+        | none =>
+          if isEnd then
+            if live ≠ 0 then fail "no-leak"
+            else if r.live.getD 0 ≠ 0 then fail "no-leak"
+            else if rest.isEmpty then "ok" else "fail shape:records-after-end"
+          else judgeLoop h (names.drop 1) rest r.slots heap' (idx + 1)
+
+def judge (op obs : String) : String :=
+  match parseHist op with
+  | none => "fail bad-op"
+  | some h =>
+    match (obs.splitOn "|").mapM parseRec with
+    | none => "fail not-an-observation:" ++ (obs.take 60).toString
+    | some recs => judgeLoop h h.names recs (List.replicate 6 none) [] 0
+
+def main (args : List String) : IO UInt32 := Driver.main' model judge args
